@@ -198,3 +198,22 @@ Proof.
   intros both_mn both_mx Hnf. apply K.
   destruct nf as [n|]; [exact Hnf|]. now apply scaled_rint_not_nan.
 Qed.
+
+(* non-vacuity of no_wrap_inputs, evaluated once here (Props.v only refers to it) *)
+Lemma no_wrap_float_nonvacuous :
+  let slope := S754_finite false 8388608 (-24) in
+  let inter := S754_finite false 12582912 (-22) in
+  let sl := fconv K32 slope in let it := fconv K32 inter in
+  let nfill := frint K32 (scale_w K32 sl it fzero) in
+  let p_mn := frint K32 (scale_w K32 sl it (S754_infinity true)) in
+  let p_mx := frint K32 (scale_w K32 sl it (S754_infinity false)) in
+  let '(q_mn, q_mx) := post_bounds_f K32 p_mn p_mx (f_of_Z K32 (-32768)) (f_of_Z K32 32767) in
+  is_finite_strict (sf2b K32 slope) = true /\ is_finite (sf2b K32 inter) = true
+  /\ bnan K32 (S754_infinity true) = false /\ bnan K32 (S754_infinity false) = false
+  /\ sr_k K32 ity_int16 = Ok (-32768, 32767)
+  /\ fle K32 (f_of_Z K32 (-32768)) nfill = true /\ fle K32 nfill (f_of_Z K32 32767) = true
+  /\ cast_to_int K32 ity_int16 (elem_f K32 sl it q_mn q_mx (Some nfill) S754_nan) = (-6, false)
+  /\ cast_to_int K32 ity_int16 (elem_f K32 sl it q_mn q_mx (Some nfill) (S754_infinity false)) = (32767, false)
+  /\ cast_to_int K32 ity_int16 (elem_f K32 sl it q_mn q_mx (Some nfill) (S754_finite false 16000000 (-4))) = (32767, false)
+  /\ cast_to_int K32 ity_int16 (elem_f K32 sl it q_mn q_mx (Some nfill) (S754_finite false 10485760 (-20))) = (14, false).
+Proof. vm_compute. repeat split; reflexivity. Qed.
